@@ -247,6 +247,10 @@ def script_text(spec: Spec, variant: int, dofile: str, gates: bool = False) -> s
         L.append('printf "%s(%s)\\n" "$1" "$c" > "$3"')
         if spec.kind == "csum":
             L.append('redo-stamp < "$3"')
+    elif spec.out == "dir":
+        # the rule's product is a directory
+        L.append('mkdir "$3"')
+        L.append('printf "%s(%s)\\n" "$1" "$c" > "$3/data"')
     elif spec.out == "append":
         L.append('printf "%s)\\n" "$c" >> "$3"')
         if spec.kind == "csum":
